@@ -42,6 +42,12 @@ struct DBusPreallocatedSend { int conn; };
 #define OP 0
 #endif
 #define NC 3
+#ifndef MON
+#define MON 3
+#endif
+#ifndef SEL
+#define SEL 3
+#endif
 #if P > 0
 #define W_P1(l) VF_WITNESS (l)
 #else
@@ -98,7 +104,29 @@ void dbus_connection_send_preallocated (DBusConnection *c, DBusPreallocatedSend 
 }
 /* monitors: present or not (symbolic); their matchmaker selects nobody (capture itself is not the subject here) */
 static DBusList vf_monitor_node;
-dbus_bool_t bus_matchmaker_get_recipients (BusMatchmaker *mm, BusConnections *cs, DBusConnection *s, DBusConnection *a, DBusMessage *m, DBusList **out) { return TRUE; }
+static int mon_select[NC], get_recipients_ok = 1;
+dbus_bool_t bus_matchmaker_get_recipients (BusMatchmaker *mm, BusConnections *cs, DBusConnection *s, DBusConnection *a, DBusMessage *m, DBusList **out)
+{
+  int i;
+  if (!get_recipients_ok) return FALSE;
+  for (i = 0; i < NC; i++) if (mon_select[i]) { dbus_bool_t ap = _dbus_list_append (out, cnp[i]); VF_ASSUME (ap); }
+  return TRUE;
+}
+/* ---- environment of bus_connection_be_monitor ---- */
+static int g_mm_new, g_mm_add, g_mm_disc_monitor, g_mm_disc_main, add_rule_ok = 1, remove_owner_fail_at, g_remove_owner_calls, g_removed_svc[3];
+static int tok_main_mm, tok_mon_mm;
+BusMatchmaker *bus_matchmaker_new (void) { g_mm_new++; return (BusMatchmaker *) &tok_mon_mm; }
+dbus_bool_t bus_matchmaker_add_rule (BusMatchmaker *mm, BusMatchRule *r) { if (!add_rule_ok) return FALSE; g_mm_add++; return TRUE; }
+void bus_matchmaker_disconnected (BusMatchmaker *mm, DBusConnection *c) { if (mm == (BusMatchmaker *) &tok_main_mm) g_mm_disc_main++; else g_mm_disc_monitor++; }
+BusMatchmaker *bus_context_get_matchmaker (BusContext *c) { return (BusMatchmaker *) &tok_main_mm; }
+dbus_bool_t bus_service_remove_owner (BusService *s, DBusConnection *c, BusTransaction *t, DBusError *e)
+{
+  int idx = (int) ((long) s) - 1;
+  g_remove_owner_calls++;
+  if (remove_owner_fail_at && g_remove_owner_calls == remove_owner_fail_at) { e->name = DBUS_ERROR_NO_MEMORY; e->message = "m"; return FALSE; }
+  if (idx >= 0 && idx < 3) g_removed_svc[idx]++;
+  return TRUE;
+}
 static dbus_uint32_t vf_next_serial = 1000;
 dbus_uint32_t _dbus_connection_get_next_client_serial (DBusConnection *c) { return vf_next_serial++; }
 dbus_bool_t bus_containers_connection_is_contained (DBusConnection *c, const char **path, const char **type, const char **name) { return FALSE; }
@@ -218,6 +246,65 @@ void harness (void)
     VF_ASSERT (_dbus_list_get_length (&elist.items) == kept, "nothing else in the list");
     VF_ASSERT (n_sent == 0, "disconnect itself sends nothing");
     VF_WITNESS ("disconnect processed");
+  }
+#elif OP == 5
+  {
+    /* C18: bus_transaction_capture — every monitor the monitors' matchmaker selects gets exactly one copy; nobody else; no monitors => no effect at all */
+    /* monitors present (MON bit0/bit1) and selected by their matchmaker (SEL bit0/bit1) are the shape (R4) */
+    int m0 = (MON & 1) != 0, m1 = (MON & 2) != 0, live0 = vf_live_blocks; dbus_bool_t ok; static DBusList mn0, mn1;
+    conns.monitors = 0; conns.monitor_matchmaker = 0;
+    if (m0 || m1)
+      {
+        DBusList *a = m0 ? &mn0 : &mn1, *b = (m0 && m1) ? &mn1 : a;
+        mn0.data = cnp[1]; mn1.data = cnp[2];
+        a->next = b; a->prev = b; b->next = a; b->prev = a;
+        conns.monitors = a; conns.monitor_matchmaker = (BusMatchmaker *) &tok_mon_mm;
+      }
+    mon_select[1] = m0 && (SEL & 1); mon_select[2] = m1 && (SEL & 2); mon_select[0] = 0;
+    msg.sender = cname[0];
+    tr = bus_transaction_new ((BusContext *) &conns); VF_ASSUME (tr != 0);
+    ok = bus_transaction_capture (tr, cnp[0], 0, &msg);
+    VF_ASSERT (ok, "capture succeeds when memory is available");
+    if (!m0 && !m1) VF_ASSERT (cdp[1]->transaction_messages == 0 && cdp[2]->transaction_messages == 0 && tr->connections == 0, "without monitors, capture stages nothing (the bus behaves as if capture did not exist)");
+    bus_transaction_execute_and_free (tr);
+    {
+      int s1 = 0, s2 = 0, s0 = 0;
+      for (i = 0; i < NSENT; i++) if (i < n_sent) { if (sent[i].conn == 1) s1++; else if (sent[i].conn == 2) s2++; else s0++; VF_ASSERT (sent[i].m == &msg, "monitors get the message itself"); }
+      VF_ASSERT (s1 == (mon_select[1] ? 1 : 0) && s2 == (mon_select[2] ? 1 : 0) && s0 == 0, "each selected monitor receives exactly one copy, nobody else receives anything");
+      if (s1 && s2) VF_WITNESS_OPT ("two monitors served");
+    }
+    (void) live0;
+  }
+#elif OP == 6
+  {
+    /* C18: bus_connection_be_monitor — all-or-nothing */
+    static DBusList sv0, sv1, rule_node; static DBusList *rules; int nsvc = vf_range (0, 2), had_rules = vf_bool (); dbus_bool_t ok; static BusTransaction trs;
+    BusConnectionData *d = cdp[0];
+    sv0.data = (void *) 1L; sv1.data = (void *) 2L;
+    if (nsvc == 1) { sv0.next = sv0.prev = &sv0; d->services_owned = &sv0; }
+    if (nsvc == 2) { sv0.next = &sv1; sv0.prev = &sv1; sv1.next = &sv0; sv1.prev = &sv0; d->services_owned = &sv0; }
+    d->n_services_owned = nsvc; d->n_match_rules = had_rules ? 3 : 0;
+    rule_node.data = &rule_node; rule_node.next = rule_node.prev = &rule_node; rules = vf_bool () ? &rule_node : 0;
+    conns.monitors = 0; conns.monitor_matchmaker = vf_bool () ? (BusMatchmaker *) &tok_mon_mm : 0;
+    add_rule_ok = vf_bool (); remove_owner_fail_at = vf_range (0, 2);
+    trs.context = (BusContext *) &conns;
+    ok = bus_connection_be_monitor (cnp[0], &trs, &rules, &err);
+    if (ok)
+      {
+        VF_ASSERT (bus_connection_is_monitor (cnp[0]) && conns.monitors != 0 && conns.monitors->data == cnp[0], "the connection is now in the monitors list");
+        VF_ASSERT (g_remove_owner_calls == nsvc && (nsvc < 1 || g_removed_svc[0] == 1) && (nsvc < 2 || g_removed_svc[1] == 1), "every name it owned is released, each exactly once, inside the transaction");
+        VF_ASSERT (g_mm_disc_main == (had_rules ? 1 : 0), "its ordinary match rules are dropped");
+        for (i = 0; i < P; i++) if (t[i].get == 0) VF_ASSERT (!bus_expire_list_contains_item (&elist, &pr[i]->expire_item), "its own pending calls are forgotten");
+        VF_WITNESS ("became a monitor");
+      }
+    else
+      {
+        VF_ASSERT (err.name != 0, "failure carries an error");
+        VF_ASSERT (!bus_connection_is_monitor (cnp[0]) && conns.monitors == 0, "on failure the connection stays an ordinary client");
+        VF_ASSERT (g_mm_disc_main == 0, "and keeps its ordinary match rules");
+        VF_ASSERT (g_mm_add == 0 || g_mm_disc_monitor >= 1, "monitor rules that were added are withdrawn");
+        VF_WITNESS_OPT ("becoming a monitor failed");
+      }
   }
 #elif OP == 4
   {
